@@ -836,8 +836,45 @@ def _distribute_field(b, i):
     return None
 
 
+def _assume(t, facts):
+    """t where the conditions in `facts` (shown strings of atomic conditions) are known to hold: conjuncts that are known drop out of nested
+    `if` conditions (closures are not entered: they may run later, under other conditions for impure facts - conservative)"""
+    def simp(c):
+        if c[0] == "op" and c[1] == "&&" and len(c[2]) == 2:
+            a, b = simp(c[2][0]), simp(c[2][1])
+            if a is True:
+                return b
+            if b is True:
+                return a
+            return ("op", "&&", [a, b])
+        return True if _show(c) in facts else c
+
+    def go(x):
+        if x[0] == "closure":
+            return x
+        if x[0] == "if":
+            c = simp(x[1])
+            if c is True:
+                return go(x[2])
+            if c is x[1]:
+                return ("if", c, go(x[2]), go(x[3]))
+            return _mk_if_raw(c, go(x[2]), go(x[3]))          # a shortened condition goes through the identities again (Not -> swap, ..)
+        if x[0] == "call":
+            return ("call", x[1], [go(a) for a in x[2]])
+        if x[0] == "struct" and x[3]:
+            return ("struct", x[1], x[2], {k: go(v) for k, v in x[3].items()})
+        if x[0] in ("tup", "array"):
+            return (x[0], [go(a) for a in x[1]])
+        return x
+    return go(t)
+
+
 def _mk_if_raw(c, t, e):
     """if c {t} else {e} with the boolean identities applied"""
+    if c[0] in ("iflet", "op") and t[0] in ("if", "call", "struct", "tup"):
+        facts = {_show(x) for x in _conj(c) if x[0] == "iflet" or (x[0] == "op" and x[1] not in ("&&", "||"))}
+        if facts and any(f in _show(t) for f in facts):
+            t = _assume(t, facts)
     if c[0] == "op" and c[1] == "Not" and len(c[2]) == 1:
         return _mk_if_raw(c[2][0], e, t)
     if c[0] == "iflet-not":
@@ -1417,13 +1454,12 @@ class Norm:
                 if t[0] == "mut" and t[3]:
                     # every effect under one and the same `if c` / `if let`: the value is  if c { mut[init; effects] } else { init }
                     gs = [tuple(e_[-1]) for e_ in t[3]]
-                    if gs[0] and all(g == gs[0] for g in gs) and len(gs[0]) == 1 and gs[0][0][1] in ("if", "arm") \
+                    if gs[0] and all(g == gs[0] for g in gs) and all(g[1] in ("if", "arm") for g in gs[0]) \
                             and not any(x[0] == "sym" and x[1] == "<self>" for x in subterms(("tup", [g for g in gs[0]]))):
-                        g = gs[0][0]
-                        if g[1] == "if":
-                            cond = g[3] if g[2] else _not(g[3])
-                        else:
-                            cond = _let(g[3], g[2])
+                        cond = None
+                        for g in gs[0]:
+                            c1 = (g[3] if g[2] else _not(g[3])) if g[1] == "if" else _let(g[3], g[2])
+                            cond = c1 if cond is None else ("op", "&&", [cond, c1])
                         bare = ("mut", t[1], t[2], [tuple(list(e_[:-1]) + [[]]) for e_ in t[3]])
                         t = _mk_if(cond, bare, t[2])
         finally:
